@@ -765,6 +765,12 @@ def tokenize(content: str, lenient: bool = False) -> tuple[list[Token], list[Any
     # Issue #235: Track which fence span we are expecting next
     fence_span_idx = 0
 
+    # The grammar sentinel is only recognised as the first thing in the document. Stripped
+    # YAML frontmatter is replaced by blank lines (to preserve line numbers), so "first" means
+    # "preceded by newlines only", not "offset 0" - otherwise a document with both frontmatter
+    # and OCTAVE::x.y.z loses its sentinel (and its envelope) on every read.
+    sentinel_pos = len(content) - len(content.lstrip("\n"))
+
     # Track bracket depth for unbalanced bracket detection (GH#180)
     # Stack of (bracket_char, line, column) for each opening bracket
     bracket_stack: list[tuple[str, int, int]] = []
@@ -874,8 +880,8 @@ def tokenize(content: str, lenient: bool = False) -> tuple[list[Token], list[Any
         for pattern, token_type in compiled_patterns:
             # GRAMMAR_SENTINEL must only match at document start (position 0)
             # to prevent silent data loss in nested assignments like NOTE::OCTAVE::5.1.0
-            if token_type == TokenType.GRAMMAR_SENTINEL and pos != 0:
-                continue  # Skip GRAMMAR_SENTINEL pattern if not at position 0
+            if token_type == TokenType.GRAMMAR_SENTINEL and pos != sentinel_pos:
+                continue  # Skip GRAMMAR_SENTINEL pattern if not at document start
 
             match = pattern.match(content, pos)
             if match:
